@@ -45,9 +45,9 @@ def execute(case):
     os.makedirs(wd, exist_ok=True)
     try:
         raw, info = rsession.build(case["shape"], seed=case.get("seed", 0), password=case.get("password"), coder=case.get("coder", "lzma2"),
-                                   header=case.get("header", "lzma"), packcrc=case.get("packcrc", False))
+                                   header=case.get("header", "lzma"), packcrc=case.get("packcrc", False), damaged=case.get("damaged", ()))
         return rsession.run_calls(py7zr, raw, case["shape"], info, case["calls"], target=case.get("target", "stream"),
-                                  password=case.get("password"), ending=case.get("ending", "close"), workdir=wd)
+                                  password=case.get("password"), ending=case.get("ending", "close"), workdir=wd, damaged=case.get("damaged", ()))
     finally:
         shutil.rmtree(wd, ignore_errors=True)
 
